@@ -1251,6 +1251,73 @@ XSLTEngineImpl::endDocument()
 
 
 
+// Find a pending attribute that has the same expanded name as theName, but
+// another prefix.
+static const XalanDOMChar*
+findAttributeWithSameExpandedName(
+            const XSLTEngineImpl&           theProcessor,
+            StylesheetExecutionContext&     theExecutionContext,
+            const AttributeListImpl&        theAttributes,
+            const XalanDOMString&           theName)
+{
+    const XalanDOMString::size_type     theIndex =
+        indexOf(theName, XalanUnicode::charColon);
+
+    const XalanSize_t   theCount = theAttributes.getLength();
+
+    if (theIndex == theName.length() || theCount == 0)
+    {
+        // Without a prefix, the qualified name is the expanded name...
+        return 0;
+    }
+
+    const XSLTEngineImpl::ECGetCachedString     thePrefixGuard(theExecutionContext);
+
+    XalanDOMString&     thePrefix = thePrefixGuard.get();
+
+    substring(theName, thePrefix, 0, theIndex);
+
+    const XalanDOMString* const     theNamespace =
+        theProcessor.getResultNamespaceForPrefix(thePrefix);
+
+    if (theNamespace == 0)
+    {
+        return 0;
+    }
+
+    const XalanDOMChar* const   theLocalPart = theName.c_str() + theIndex + 1;
+
+    for (XalanSize_t i = 0; i < theCount; ++i)
+    {
+        const XalanDOMChar* const   theOther = theAttributes.getName(i);
+        assert(theOther != 0);
+
+        const XalanDOMString::size_type     theOtherIndex =
+            indexOf(theOther, XalanUnicode::charColon);
+
+        if (theOther[theOtherIndex] != 0 &&
+            equals(theOther + theOtherIndex + 1, theLocalPart) == true &&
+            equals(theOther, theName.c_str()) == false &&
+            startsWith(theOther, DOMServices::s_XMLNamespaceWithSeparator) == false)
+        {
+            thePrefix.assign(theOther, theOtherIndex);
+
+            const XalanDOMString* const     theOtherNamespace =
+                theProcessor.getResultNamespaceForPrefix(thePrefix);
+
+            if (theOtherNamespace != 0 &&
+                equals(*theOtherNamespace, *theNamespace) == true)
+            {
+                return theOther;
+            }
+        }
+    }
+
+    return 0;
+}
+
+
+
 void
 XSLTEngineImpl::addResultAttribute(
             AttributeListImpl&      attList,
@@ -1266,6 +1333,8 @@ XSLTEngineImpl::addResultAttribute(
     if (equals(aname, DOMServices::s_XMLNamespacePrefix) == false) 
     {
         bool    fExcludeAttribute = false;
+
+        const XalanDOMChar*     theName = aname.c_str();
 
         if (equals(aname, DOMServices::s_XMLNamespace) == true)
         {
@@ -1349,11 +1418,33 @@ XSLTEngineImpl::addResultAttribute(
                 fExcludeAttribute = true;
             }
         }
+        else if (fromCopy == false)
+        {
+            // The attribute list replaces the value of an attribute with the
+            // same qualified name.  A pending attribute with another prefix for
+            // the same namespace and the same local part is the same attribute,
+            // so the value goes there.  (The attributes of a copied element are
+            // distinct already, and its namespace nodes are copied after them,
+            // so their prefixes cannot be resolved here.)
+            assert(m_executionContext != 0);
+
+            const XalanDOMChar* const   theOther =
+                findAttributeWithSameExpandedName(
+                    *this,
+                    *m_executionContext,
+                    attList,
+                    aname);
+
+            if (theOther != 0)
+            {
+                theName = theOther;
+            }
+        }
 
         if (fExcludeAttribute == false)
         {
             attList.addAttribute(
-                aname.c_str(),
+                theName,
                 Constants::ATTRTYPE_CDATA.c_str(),
                 value);
         }
@@ -2996,7 +3087,14 @@ XSLTEngineImpl::copyAttributeToTarget(
             const XalanDOMString&   attrValue,
             AttributeListImpl&      attrList)
 {
-    addResultAttribute(attrList, attrName, attrValue, false, 0);
+    // These are attributes of an element that is being copied.  Its namespace
+    // declarations are not flagged as copies, because they must be able to
+    // override what is in scope (a conflicting copied namespace node is an error).
+    const bool  fIsDeclaration =
+        equals(attrName, DOMServices::s_XMLNamespace) == true ||
+        startsWith(attrName, DOMServices::s_XMLNamespaceWithSeparator) == true;
+
+    addResultAttribute(attrList, attrName, attrValue, !fIsDeclaration, 0);
 }
 
 
